@@ -59,9 +59,15 @@ var families = []family{
 	// and `finish` of a rolled-back writer takes the object out of the map before anybody else can have it.
 	// Transactions: 1 = the overlapping search, 2 = writer (1), 3 = writer 2, 4 = the search after quiescence.
 	{"coldrace/nCreate", coldraceLine, true, "R=ok R2=ok"},
+	{"coldrace/nCreate/any", coldraceLine, true, "R=ok R2=ok"},
 	{"coldrace/nStore", coldraceLine, true, "R=ok R2=ok"},
+	{"coldrace/nStore/any", coldraceLine, true, "R=ok R2=ok"},
+	{"coldrace/nRLock", coldraceLine, true, "R=ok R2=ok"},
+	{"coldrace/nRLock/any", coldraceLine, true, "R=ok R2=ok"},
 	{"coldrace/nMgrUnlock", coldraceLine, true, "R=ok R2=ok"},
+	{"coldrace/nMgrUnlock/any", coldraceLine, true, "R=ok R2=ok"},
 	{"coldrace/callF", coldraceLine, true, "R=ok R2=ok"},
+	{"coldrace/callF/any", coldraceLine, true, "R=ok R2=ok"},
 	{"wfailq/delete+insertV", wfailqLine, true, "R2=ok"},
 	{"wfailq/insert+insertV", wfailqLine, true, "R2=ok"},
 	{"wfailq/move+move", wfailqLine, true, "R2=ok"},
@@ -70,6 +76,10 @@ var families = []family{
 	{"wfailq/mgr/move+insertV", wfailqMgrLine, true, "S=ok R2=ok"},
 	{"wfailq/mgr/insert+delete", wfailqMgrLine, true, "S=ok R2=ok"},
 	{"wfailq/mgr/any", wfailqMgrLine, true, "S=ok R2=ok"},
+	// the reader found the object write-held or, after the rolled-back writer gave it up, scrapped and out of the map:
+	// either way it works on a fresh one
+	{"wfailr/insert", wfailrLine, true, "S=ok R2=ok"},
+	{"wfailr/any", wfailrLine, true, "S=ok R2=ok"},
 	{"wokq/any", "shared | beginW 2 ; access 2 0 ; put 2 0 7 ; commit 2 ; beginW 3 ; finish 2 ; access 3 0 ; put 3 0 8 ; commit 3 ; finish 3 ; beginR 4 ; access 4 0 ; read 4 0 7 ; read 4 0 8 ; read 4 0 2 ; leave 4 0 ; backfill 4 7 ; backfill 4 8 ; end 4 | R2=4", true, "R2=ok"},
 	{"wokq/mgr/any", "shared | beginW 2 ; access 2 0 ; put 2 0 7 ; commit 2 ; beginW 3 ; beginR 1 ; access 1 0 ; read 1 0 7 ; read 1 0 2 ; leave 1 0 ; backfill 1 7 ; end 1 ; finish 2 ; access 3 0 ; put 3 0 8 ; commit 3 ; finish 3 ; beginR 4 ; access 4 0 ; read 4 0 7 ; read 4 0 8 ; read 4 0 2 ; leave 4 0 ; backfill 4 7 ; backfill 4 8 ; end 4 | S=1 R2=4", true, "S=ok R2=ok"},
 	{"w1and", "", false, ""},
@@ -85,8 +95,10 @@ const coldraceLine = "shared | beginR 1 ; access 1 0 ; beginW 2 ; read 1 0 1 ; r
 const wfailqLine = "shared | beginW 2 ; access 2 0 ; put 2 0 7 ; rollback 2 ; beginW 3 ; finish 2 ; access 3 0 ; put 3 0 8 ; commit 3 ; finish 3 ; beginR 4 ; access 4 0 ; read 4 0 7 ; read 4 0 8 ; read 4 0 2 ; leave 4 0 ; backfill 4 8 ; end 4 | R2=4"
 const wfailqMgrLine = "shared | beginW 2 ; access 2 0 ; put 2 0 7 ; rollback 2 ; beginW 3 ; beginR 1 ; access 1 0 ; read 1 0 7 ; read 1 0 2 ; leave 1 0 ; end 1 ; finish 2 ; access 3 0 ; put 3 0 8 ; commit 3 ; finish 3 ; beginR 4 ; access 4 0 ; read 4 0 7 ; read 4 0 8 ; read 4 0 2 ; leave 4 0 ; backfill 4 8 ; end 4 | S=1 R2=4"
 
+const wfailrLine = "shared | beginW 2 ; access 2 0 ; put 2 0 7 ; rollback 2 ; beginR 1 ; finish 2 ; access 1 0 ; read 1 0 7 ; read 1 0 2 ; leave 1 0 ; end 1 ; beginR 4 ; access 4 0 ; read 4 0 7 ; read 4 0 2 ; leave 4 0 ; end 4 | S=1 R2=4"
+
 func cacheFamily(name string) bool {
-	return strings.HasPrefix(name, "coldrace/") || strings.HasPrefix(name, "wfailq/") || strings.HasPrefix(name, "wokq/")
+	return strings.HasPrefix(name, "coldrace/") || strings.HasPrefix(name, "wfailq/") || strings.HasPrefix(name, "wokq/") || strings.HasPrefix(name, "wfailr/")
 }
 
 type childOut struct {
@@ -224,7 +236,7 @@ func parentMain(seed uint64, out, tier string) {
 		// props/C09.py search(): the tie to the cache manager's protocol broke (pin / proof / correspondence) - the
 		// families that drive the manager's yield points with more data variants, the failing / locked writer
 		// families, and the shared-manager stress
-		variants = 4
+		variants = 3
 		stressMs = 4000
 		stressCfg = []string{"limited/two", "limited/two", "limited/partial", "shared/cold"}
 		fams = nil
